@@ -185,11 +185,11 @@ v("keep-reflect-kind-guarded", "keep", "all", "", [
          "func isFloat(in any) bool {\n\tif in == nil {\n\t\treturn false\n\t}\n\tswitch reflect.TypeOf(in).Kind() {\n\tcase reflect.Float32, reflect.Float64:\n\t\treturn true\n\tdefault:\n\t\treturn false\n\t}"),
 ], "the same through reflect, under a nil test")
 v("break-c08-byte-rune", "break", "C08", "TEXT-UNIT", [
-    (P, "\t\treturn expr.Lit(strings.ReplaceAll(token.Val, `\\`, \"\")), nil", "\t\tvar sb strings.Builder\n\t\tfor i := 0; i < len(token.Val); i++ {\n\t\t\tif token.Val[i] != '\\\\' {\n\t\t\t\tsb.WriteRune(rune(token.Val[i]))\n\t\t\t}\n\t\t}\n\t\treturn expr.Lit(sb.String()), nil"),
+    (P, "\t\treturn expr.Lit(unescaper.Replace(token.Val)), nil", "\t\tvar sb strings.Builder\n\t\tfor i := 0; i < len(token.Val); i++ {\n\t\t\tif token.Val[i] == '\\\\' {\n\t\t\t\ti++\n\t\t\t\tif i == len(token.Val) {\n\t\t\t\t\tbreak\n\t\t\t\t}\n\t\t\t}\n\t\t\tsb.WriteRune(rune(token.Val[i]))\n\t\t}\n\t\treturn expr.Lit(sb.String()), nil"),
 ], "bytes of the term re-encoded one by one as runes")
-v("keep-bytewise-unescape", "keep", "all", "", [
-    (P, "\t\treturn expr.Lit(strings.ReplaceAll(token.Val, `\\`, \"\")), nil", "\t\tvar sb strings.Builder\n\t\tfor i := 0; i < len(token.Val); i++ {\n\t\t\tif token.Val[i] != '\\\\' {\n\t\t\t\tsb.WriteByte(token.Val[i])\n\t\t\t}\n\t\t}\n\t\treturn expr.Lit(sb.String()), nil"),
-], "a byte-wise copy that drops backslashes is the same function as ReplaceAll")
+v("keep-local-unescaper", "keep", "all", "", [
+    (P, "\t\treturn expr.Lit(unescaper.Replace(token.Val)), nil", "\t\treturn expr.Lit(strings.NewReplacer(`\\\\`, `\\`, `\\`, \"\").Replace(token.Val)), nil"),
+], "the same replacer built in place instead of once at package level")
 v("break-c12-marshal-ptr-recv", "break", "C12", "JSON-METHODS", [
     (E, "func (e Expression) MarshalJSON() (out []byte, err error) {", "func (e *Expression) MarshalJSON() (out []byte, err error) {"),
 ], "MarshalJSON on the pointer receiver only")
@@ -214,6 +214,45 @@ v("keep-err-error-call", "keep", "all", "", [
     (RD, "\te, err := Parse(in, opts...)\n\tif err != nil {\n\t\treturn \"\", err\n\t}\n\n\treturn postgres.Render(e)", "\te, err := Parse(in, opts...)\n\tif err != nil {\n\t\treturn \"\", errors.New(err.Error())\n\t}\n\n\treturn postgres.Render(e)"),
     (RD, 'import "github.com/grindlemire/go-lucene/pkg/driver"', 'import (\n\t"errors"\n\n\t"github.com/grindlemire/go-lucene/pkg/driver"\n)'),
 ], "a method call on an error under err != nil")
+
+# ---------------------------------------------------------------- round 7 rules
+v("break-c08-drop-all-backslashes", "break", "C08", "ESC-DECODE", [
+    (P, "\t\treturn expr.Lit(unescaper.Replace(token.Val)), nil", "\t\treturn expr.Lit(strings.ReplaceAll(token.Val, `\\`, \"\")), nil"),
+], "the reverse of the escaped-backslash repair")
+v("break-c08-unescape-specials-only", "break", "C08", "ESC-DECODE", [
+    (P, "var unescaper = strings.NewReplacer(`\\\\`, `\\`, `\\`, \"\")", "var unescaper = strings.NewReplacer(`\\\\`, `\\`, `\\:`, \":\", `\\ `, \" \", `\\(`, \"(\", `\\)`, \")\")"),
+], "only some escapes are decoded")
+v("break-c03-bound-unit-wrong-end", "break", "C03", "BOUND-UNIT", [
+    (RF, "\tfMax, err = strconv.ParseFloat(rawMax, 64)\n\tif rawMax != \"'*'\" && err != nil {", "\tfMax, err = strconv.ParseFloat(rawMax, 64)\n\tif rawMin != \"'*'\" && err != nil {"),
+], "the error of the upper bound excused by the lower bound being open")
+v("break-c13-typed-nil-operand", "break", "C13", "NIL-TYPED", [
+    (E, "\t\te.Left = ptr(empty())\n\t\terr = json.Unmarshal(c.Left, e.Left)\n\t\tif err != nil {\n\t\t\treturn err\n\t\t}", "\t\tvar l *Expression\n\t\terr = json.Unmarshal(c.Left, &l)\n\t\tif err != nil {\n\t\t\treturn err\n\t\t}\n\t\te.Left = l"),
+], "encoding/json allocates the operand: null leaves a typed nil")
+v("break-c08-rewrite-any-single-param", "break", "C08", "PARAM-VERBATIM", [
+    (B, "\tif e.Op == expr.Like && len(rparams) == 1 {", "\tif e.Op == expr.Like || len(rparams) == 1 {"),
+], "wildcard translation applied to every operator with one right-hand parameter")
+v("break-c06-distance-zero-dropped", "break", "C06", "CTOR-ATTR", [
+    (E, "\t\tif len(right) == 1 && isInt(right[0]) {\n\t\t\te.fuzzyDistance = right[0].(int)\n\t\t}", "\t\tif len(right) == 1 && isInt(right[0]) && right[0].(int) > 0 {\n\t\t\te.fuzzyDistance = right[0].(int)\n\t\t}"),
+], "an explicit distance 0 is replaced by the default")
+v("keep-power-nonnegative-guard", "keep", "all", "", [
+    (E, "\t\tif len(right) == 1 && isFloat(right[0]) {\n\t\t\te.boostPower = right[0].(float64)\n\t\t}", "\t\tif len(right) == 1 && isFloat(right[0]) && right[0].(float64) >= 0 {\n\t\t\te.boostPower = right[0].(float64)\n\t\t}"),
+], "a guard every production satisfies (powers are > 0) changes nothing Parse can produce")
+v("break-c15-wrapper-drops-modifier", "break", "C15", "WRAP-KEEP", [
+    (R, "func wrapLiteral(lit *expr.Expression, field string) *expr.Expression {\n", "func wrapLiteral(lit *expr.Expression, field string) *expr.Expression {\n\tif inner, ok := lit.Left.(*expr.Expression); ok && (lit.Op == expr.Fuzzy || lit.Op == expr.Boost) {\n\t\tlit = inner\n\t}\n"),
+], "the default-field wrapper looks through ~ and ^ and forgets them")
+v("break-c15-nil-operand-text", "break", "C15", "FOLD", [
+    (B, "func (b Base) serialize(in any) (s string, err error) {\n\tif in == nil {\n\t\treturn \"\", nil\n\t}\n", "func (b Base) serialize(in any) (s string, err error) {\n"),
+], "an absent operand rendered as <nil>")
+v("break-c14-shared-builder", "break", "C14", "PUR-ARG", [
+    (RF, "func basicCompound(op expr.Operator) RenderFN {\n\treturn func(left, right string) (string, error) {\n\t\treturn fmt.Sprintf(\"%s %s %s\", left, op, right), nil\n\t}", "func basicCompound(op expr.Operator) RenderFN {\n\tvar sb strings.Builder\n\treturn func(left, right string) (string, error) {\n\t\tsb.Reset()\n\t\tsb.WriteString(left)\n\t\tsb.WriteString(\" \" + op.String() + \" \")\n\t\tsb.WriteString(right)\n\t\treturn sb.String(), nil\n\t}"),
+], "one strings.Builder captured by the AND/OR render closures")
+v("keep-local-builder", "keep", "all", "", [
+    (RF, "func basicCompound(op expr.Operator) RenderFN {\n\treturn func(left, right string) (string, error) {\n\t\treturn fmt.Sprintf(\"%s %s %s\", left, op, right), nil\n\t}", "func basicCompound(op expr.Operator) RenderFN {\n\treturn func(left, right string) (string, error) {\n\t\tvar sb strings.Builder\n\t\tsb.WriteString(left)\n\t\tsb.WriteString(\" \" + op.String() + \" \")\n\t\tsb.WriteString(right)\n\t\treturn sb.String(), nil\n\t}"),
+], "a strings.Builder local to the call")
+v("break-c01-nil-before-ok", "break", "C01", "NIL-ASSERT", [
+    (P, "\t\t\tfinal, ok := p.stack[0].(*expr.Expression)\n\t\t\tif !ok {", "\t\t\tfinal, ok := p.stack[0].(*expr.Expression)\n\t\t\tfinal = p.scopeSingle(final)\n\t\t\tif !ok {"),
+    (P, "func (p *parser) shift() (tok lex.Token) {", "func (p *parser) scopeSingle(lit *expr.Expression) *expr.Expression {\n\tif p.defaultField != \"\" && lit.Op == expr.Literal {\n\t\treturn lit\n\t}\n\treturn lit\n}\n\nfunc (p *parser) shift() (tok lex.Token) {"),
+], "a helper dereferences the asserted pointer before ok is tested")
 
 def main():
     os.makedirs(OUT, exist_ok=True)
